@@ -312,7 +312,8 @@ CLAIMS = {
         technique='Lean 4 proof (TransCmp instances + core mergeSort lemmas) + correspondence; SortBy.__call__ and the key '
                   'extraction of sort_sequence translated from the source on every run (Gen.gen_sortby_call_is_model, '
                   'gen_sortby_call_single_is_model, gen_extract_single_is_model, gen_extract_multi_is_model, '
-                  'gen_extract_keys_is_model)',
+                  'gen_extract_keys_is_model); make_sortfunctions translated and proved equal to the model\'s parser of the sort '
+                  'attribute (gen_make_sortfield_is_model, gen_make_sortfunctions_is_model)',
         ref='DESIGN.md §5 C13'),
     'C16': dict(
         text='Lean 4 theorems (Mathlib ring/field_simp/linarith over Q) about the one-pass statistics model for ALL '
